@@ -321,6 +321,19 @@ def desc(e):
     if k == "block":
         if e.get("e") is not None and not e.get("s"):
             return desc(e["e"])
+        # a spliced helper whose arguments were bound to temporaries (`Ctx::new(a.clone(), &b)` -> `{ let p0 = a.clone(); let p1 = &b; Ctx{..p0, p1} }`):
+        # its value is the tail with the temporaries read through
+        if e.get("e") is not None and e.get("spliced") and all(
+                isinstance(s_, dict) and s_.get("k") == "let" and s_.get("else") is None and isinstance(s_.get("p"), dict)
+                and s_["p"].get("k") == "bind" and "id" in s_["p"] and isinstance(s_.get("i"), dict) for s_ in e["s"]):
+            saved = SUBST
+            SUBST = dict(saved)
+            try:
+                for s_ in e["s"]:
+                    SUBST["#%d" % s_["p"]["id"]] = {"k": "described", "d": desc(s_["i"])}
+                return desc(e["e"])
+            finally:
+                SUBST = saved
         return "{..}"
     if k == "un":
         return "%s %s" % (e["op"], desc(e["e"]))
